@@ -34,6 +34,9 @@ func init() {
 }
 
 func genMgr(r *Rng, i int, tier string) string {
+	if raceEnabled {
+		r = NewRng(r.U64() ^ 0x5ace) // the race-detector leg gets its own cases
+	}
 	maxB := []int{1, 1, 2, 2, 3, 4, 8, 0}[r.Intn(8)]
 	capv := []float64{1, 2, 3, 5}[r.Intn(4)]
 	rate := []float64{20, 50, 100, 7.5, 200}[r.Intn(5)]
@@ -61,7 +64,7 @@ func genMgr(r *Rng, i int, tier string) string {
 			ops = append(ops, fmt.Sprintf("b%d:%d", h, 2+r.Intn(7)))
 		case k < 80:
 			ops = append(ops, fmt.Sprintf("s%d", h))
-		case k < 84 && fives < 1:
+		case (k < 84 || raceEnabled && k < 100 && r.Intn(3) == 0) && fives < 1:
 			// concurrent Waits + one AdjustOnFailure(503) + OnSuccess calls on one bucket
 			fives++
 			ops = append(ops, fmt.Sprintf("m%d:%d,%d", h, 2+r.Intn(5), 1+r.Intn(4)))
